@@ -310,6 +310,21 @@ mk B24; d=$D
 edit "$d/graph/graphalg/marks.go" 's.replace("for bi := (i / 32) + 1; bi < len(m.marks); bi++ {", "for bi := (i / 32); bi < len(m.marks); bi++ {")'
 expect B24 "$d" C18 tie_failed tie_NodeMarks_Next
 
+echo "== H14 harmless: LOESS computes the tricube weight through named cubes; clamps q with q > len(xs)"
+mk H14; d=$D
+edit "$d/fit/loess.go" 's.replace("\t\t\ttmp := 1 - u*u*u\n\t\t\tweights[i] = tmp * tmp * tmp", "\t\t\tu3 := u * u * u\n\t\t\ttmp := 1 - u3\n\t\t\tweights[i] = tmp * (tmp * tmp)").replace("\tif q >= len(xs) {\n\t\tq = len(xs)\n\t}", "\tif q > len(xs) {\n\t\tq = len(xs)\n\t}")'
+expect H14 "$d" C15 ok
+
+echo "== B25 breaking: the LOESS window search uses a strict comparison"
+mk B25; d=$D
+edit "$d/fit/loess.go" 's.replace("return (xs[i] + xs[i+q]) >= x*2", "return (xs[i] + xs[i+q]) > x*2")'
+expect B25 "$d" C15 tie_failed tie_LOESS
+
+echo "== B26 breaking: bisquare instead of tricube weights"
+mk B26; d=$D
+edit "$d/fit/loess.go" 's.replace("weights[i] = tmp * tmp * tmp", "weights[i] = tmp * tmp")'
+expect B26 "$d" C15 tie_failed tie_LOESS
+
 if [ $FULL = 1 ]; then
   echo "== full check on B1: both ties report (correspondence finds a failing input)"
   out=$(VERIF_REPO="$B1" bin/check C13 quick 2>&1); rc=$?
